@@ -40,7 +40,9 @@ def templates_for(tier, seed):
         # padded skeletons: those with an else clause (where the truthiness / emptiness of a lowered
         # branch matters) are preferred, and they run under if_style=short_circuit
         pad_else = [p for p in pad3 if "e(" in p[0]]
-        pickp = rnd.sample(pad_else, 90) + rnd.sample(pad3, 30)
+        # ... and those with an interrupt (a filler right after a conditional interrupt must stay guarded)
+        pad_int = [p for p in pad3 if any(x in p[0].split(":")[2] for x in "BCR") and "e(" not in p[0]]
+        pickp = rnd.sample(pad_else, 70) + rnd.sample(pad_int, 60) + rnd.sample(pad3, 20)
         pickr = res3 + rnd.sample(res4, 40)
         chosen = core + pick4 + pickc + pickm + pickp + pickr
         universe_note = {"core": len(core), "u4": len(u4), "u4x": len(u4x), "picked4": len(pick4), "composed_universe": len(comp), "picked_composed": len(pickc), "mixed_returns_universe": len(mixed3) + len(mixed4), "picked_mixed_returns": len(pickm), "padded_universe": len(pad3), "picked_padded": len(pickp), "resumed_iterator_universe": len(res3) + len(res4), "picked_resumed": len(pickr)}
